@@ -61,6 +61,9 @@ pub enum Root {
     /// capture-rich positions (several queens, many pieces en prise) where the quiescence search
     /// explodes: a short game from one of the promotion-heavy start positions
     Explosive(u8, Vec<u16>),
+    /// 5-9 queens of the side to move on an open board against a walled-in king: well over a
+    /// hundred moves in one position (the record is 218). (queens, square picks, black to move)
+    Crowded(u8, Vec<u16>, bool),
 }
 
 pub const EXPLOSIVE_STARTS: [u16; 5] = [27, 28, 29, 44, 3];
@@ -89,6 +92,30 @@ pub fn root_pos(r: &Root) -> Option<Pos> {
                 }
                 None
             }
+        }
+        Root::Crowded(nq, picks, black) => {
+            // Black: Kh8 behind Bg8, g7, h7 (no line reaches it); White: Ka1 and the queens
+            let mut p = Pos::empty(Col::W);
+            p.b[63] = Some((Col::B, Kind::K));
+            p.b[62] = Some((Col::B, Kind::B));
+            p.b[54] = Some((Col::B, Kind::P));
+            p.b[55] = Some((Col::B, Kind::P));
+            p.b[0] = Some((Col::W, Kind::K));
+            let mut placed = 0;
+            for pick in picks.iter() {
+                if placed >= *nq {
+                    break;
+                }
+                let free: Vec<usize> = (0..64).filter(|s| p.b[*s].is_none()).collect();
+                let s = free[pick_index(*pick, free.len())];
+                p.b[s] = Some((Col::W, Kind::Q));
+                if p.is_legal_position() {
+                    placed += 1;
+                } else {
+                    p.b[s] = None;
+                }
+            }
+            Some(if *black { p.mirror() } else { p })
         }
         Root::Explosive(start, picks) => {
             let case = crate::gen::PlayCase { start: EXPLOSIVE_STARTS[*start as usize % EXPLOSIVE_STARTS.len()], picks: picks.clone() };
@@ -175,6 +202,7 @@ impl Prop for TerminationSync {
             2 => (any::<u16>(), any::<u32>()).prop_map(|(a, b)| Root::Terminal(a, b)),
             3 => (0u8..(LOW_MOBILITY.len() as u8), any::<u16>(), any::<u16>(), any::<bool>()).prop_map(|(a, b, c, d)| Root::LowMobility(a, b, c, d)),
             2 => (0u8..5, prop::collection::vec(any::<u16>(), 0..14)).prop_map(|(a, b)| Root::Explosive(a, b)),
+            1 => (5u8..=9, prop::collection::vec(any::<u16>(), 12), any::<bool>()).prop_map(|(a, b, c)| Root::Crowded(a, b, c)),
         ];
         (
             root,
@@ -217,7 +245,7 @@ impl Prop for TerminationSync {
             // an unlimited search needs a Stop to end
             cancel = Some(((case.seed % 30_000) as u32).max(1));
         }
-        if matches!(case.root, Root::Explosive(..)) && cancel.is_none() {
+        if matches!(case.root, Root::Explosive(..) | Root::Crowded(..)) && cancel.is_none() {
             // capture-rich roots: always with a Stop (their iterations can take very long)
             cancel = Some(((case.seed % 50_000) as u32).max(1));
         }
@@ -236,7 +264,7 @@ impl Prop for TerminationSync {
         let mut artifact = search::new_artifact(case.hasher_seed, geometry);
         // Stop has to be obeyed on a memory that earlier searches (of this very root, too) have filled
         let mut warmed = String::new();
-        if !matches!(case.root, Root::Explosive(..)) {
+        if !matches!(case.root, Root::Explosive(..) | Root::Crowded(..)) {
             for (same, src, d, wseed) in case.warm.iter() {
                 let wp = if *same { Some(pos.clone()) } else { source_pos(src) };
                 let Some(wp) = wp else { continue };
@@ -294,6 +322,11 @@ impl Prop for TerminationSync {
         }
         if matches!(case.root, Root::Explosive(..)) {
             loc.class("explosive_root");
+        }
+        if matches!(case.root, Root::Crowded(..)) {
+            let n = pos.pseudo().len();
+            loc.class(if n > 128 { "crowded_root_more_than_128_pseudo_legal_moves" } else { "crowded_root" });
+            loc.nontrivial(&(pos.fen4(), format!("{:?}", spec)));
         }
         if low {
             loc.class("low_mobility_root");
@@ -670,7 +703,7 @@ pub fn plan(ctx: &Ctx) -> Plan {
                the terminal positions of the K+X v K families) and a low-mobility family (locked pawn walls confining both \
                kings, kings moved inside their regions) where every iteration costs fewer nodes than the poll interval, and \
                capture-rich positions (short games from the promotion-heavy start positions) where the quiescence search \
-               explodes; the node clock counts quiescence nodes too; \
+               explodes, and positions with 5-9 queens of the side to move (more than 128 moves in one position); the node clock counts quiescence nodes too; \
                depth none / 1-6 / 50-150 (single worker); 1-32 workers (>1 under the baton scheduler); the cancellation flag raised by a \
                node clock at N in {0,1,small,9999,10000,10001,20000,large}. Oracle: no panic; while the flag is up at most \
                20 x 10000 x workers further nodes (the hook turns an overrun into a finite failure); a terminal root \
